@@ -137,7 +137,7 @@ def decode_op(t):
 
 
 def strategy():
-    op = st.tuples(st.integers(0, 11), st.integers(0, 16 ** 3 - 1)).map(decode_op)
+    op = st.tuples(st.integers(0, 11), worldops.packed(16 ** 3)).map(decode_op)
     twin = st.fixed_dictionaries({
         'ops': worldops.chunked(op, 24), 'ctl_entity': st.integers(0, 15), 'variant': st.integers(0, 2),
         'shorthand': st.integers(0, len(SHORTHANDS) - 1), 'type': st.integers(0, 4), 'after': st.integers(0, 2),
